@@ -66,7 +66,9 @@ LEVEL_TEXT = ('Theorems for ALL structured programs (any nesting depth, any numb
               'parse_script output vs spec vs mirror, plus direct oracles on the '
               'implementation output (validate_script, harness-pinned walk of the published schema, per-scope label/jump census, only '
               'generated names in structured code, lint_script, '
-              'execution).')
+              'execution), and - the runtime as consumer - by execution histories over one options / globals object (one function name bound '
+              'to bodies of different block structure within a script, across scripts run in sequence by one host, inside includes, through '
+              'kept function values: never an Unknown jump label error, results as with fresh options).')
 LEVEL_NOTE = ('Trusted: Lean kernel; extract.py; harness (progen renderer, scope oracles). The core theorems speak about the spec lowering; '
               'parsed_well_formed carries them to the line-at-a-time mirror via the imported C01.parseLines_render. WellNested is not needed '
               'by any spec-level theorem (lowerS none .brk emits nothing) - it is what makes the parser accept the program and is a conclusion '
@@ -1223,6 +1225,362 @@ def load_corpus():
     return out
 
 
+# ---------------------------------------------------------------------------------------------------------------------
+# execution histories (the EXECUTION side of "structured code can never cause an Unknown jump label runtime error"): the model is well
+# formed - what is exercised is the consumer.  One function NAME bound to several bodies of different block structure under one options
+# object / one globals object, called between and after the definitions.  Host-level state (the options dict, the globals dict, the
+# function values kept alive in variables) has no counterpart in the Lean model: implementation-side oracles only.
+# ---------------------------------------------------------------------------------------------------------------------
+
+HIST_MAX_STATEMENTS = 5000
+HIST_ORACLES = ('history-unknown-jump-label', 'history-result')
+HIST_POLICIES = ['same-options', 'same-options-new-globals', 'copied-options', 'new-options-same-globals']
+
+
+def hist_body(constructs, lead=0):
+    """a pure function body over the parameter `a`: locals only, the value tells which statements ran"""
+    pre = [{'k': 'expr', 'name': 'n', 'e': var('a')}, {'k': 'expr', 'name': 'm', 'e': num(0)}] + \
+          [{'k': 'expr', 'name': 'p%d' % i, 'e': num(i)} for i in range(lead)]
+    return pre + constructs + [{'k': 'ret', 'e': wf_binary('+', wf_binary('*', var('n'), num(100)), var('m'))}]
+
+
+def _shape_name(shape):
+    return '>'.join(name + ('.%d' % slot if slot else '') + ('+b' if brk else '') + ('+c' if cont else '') for name, slot, brk, cont in shape)
+
+
+def _random_shape(rng, depth, loop=None):
+    """a random chain of the extended space; no continue that binds to a while (known finding F7: such a loop never ends)"""
+    if depth == 0:
+        return ()
+    name, kind, nslots = rng.choice(VARIANTS)
+    inner = ('while' if name == 'while' else 'for') if kind == 'loop' else loop
+    brk, cont = rng.choice(FLAGS) if inner else FLAGS[0]
+    return ((name, rng.randrange(nslots), brk, cont and inner != 'while'),) + _random_shape(rng, depth - 1, inner)
+
+
+def hist_palette(rng, n_random):
+    """[(name, body)]: bodies whose generated labels differ in name and / or statement index: no jump at all, every single construct of the
+    extended space, two sibling constructs in BOTH orders (same length, other label names), the same constructs behind 1 / 3 leading
+    statements (same label names, other indexes), random deeper chains"""
+    one = lambda name: ((name, 0, False, False),)  # noqa: E731
+    pal = [('straight', hist_body([inc('m')]))]
+    for shape in shapes(1, False, True):
+        pal.append((_shape_name(shape), hist_body(build(shape))))
+    for x, y in (('ifelse', 'while'), ('for', 'ifelifelse'), ('while', 'forix'), ('if', 'for'), ('ifelif', 'ifelse')):
+        pal.append((x + ',' + y, hist_body(build(one(x)) + build(one(y)))))
+        pal.append((y + ',' + x, hist_body(build(one(y)) + build(one(x)))))
+    for lead in (1, 3):
+        pal.append(('lead%d,while' % lead, hist_body(build(one('while')), lead)))
+        pal.append(('lead%d,ifelse,for' % lead, hist_body(build(one('ifelse')) + build(one('for')), lead)))
+    for _ in range(n_random):
+        shape = _random_shape(rng, rng.choice([2, 2, 3]))
+        pal.append((_shape_name(shape), hist_body(build(shape))))
+    return pal
+
+
+def hist_glob(k, u=''):
+    """a small global construct (shifts the script-wide label counter and gives the GLOBAL scope - of a script or of an include file - labels
+    of its own); k picks the kind, u makes its variables unique; the trace variable gt<u> tells which statements ran"""
+    k %= 4
+    gt, gw, gv = 'gt' + u, 'gw' + u, 'gv' + u
+    mark = lambda e: {'k': 'expr', 'name': gt, 'e': wf_binary('+', wf_binary('*', var(gt), num(10)), e)}  # noqa: E731
+    if k == 0:
+        return []
+    if k == 1:
+        return [{'k': 'expr', 'name': gt, 'e': num(1)}, {'k': 'expr', 'name': gw, 'e': num(0)},
+                {'k': 'while', 'c': wf_binary('<', var(gw), num(2)), 'b': [inc(gw), mark(var(gw))]}, mark(num(7))]
+    if k == 2:
+        return [{'k': 'expr', 'name': gt, 'e': num(2)}, _if(var('gz'), [mark(num(1))], {'k': 'else', 'b': [mark(num(2))]}),
+                {'k': 'for', 'value': gv, 'index': None, 'vals': call('arrayNew', num(1), num(2)), 'b': [mark(var(gv))]}]
+    return [{'k': 'expr', 'name': gt, 'e': num(3)},
+            {'k': 'for', 'value': gv, 'index': 'gi' + u, 'vals': call('arrayNew', num(1), num(2), num(3)),
+             'b': [_if(wf_binary('==', var(gv), num(2)), [{'k': 'continue'}]), mark(var(gv))]},
+            {'k': 'expr', 'name': gw, 'e': num(0)}, {'k': 'while', 'c': wf_binary('<', var(gw), num(1)), 'b': [inc(gw), mark(num(5))]}]
+
+
+class _Hist:
+    """builder of one history: scripts (structured programs), include files, and what every recorded call must return"""
+
+    def __init__(self, pal, family, tags=()):
+        self.pal, self.family, self.tags = pal, family, list(tags)
+        self.scripts, self.files, self.expect, self.k = [[]], {}, [], 0
+        self.cur = self.scripts[0]
+
+    def script(self):
+        self.scripts.append([])
+        self.cur = self.scripts[-1]
+
+    def file(self, url):
+        self.files[url] = []
+        return self.files[url]
+
+    def add(self, *stmts, to=None):
+        (self.cur if to is None else to).extend(stmts)
+
+    def glob(self, k, to=None):
+        """a global construct with variables of its own; its trace variable is part of what the history must compute"""
+        if k % 4:
+            u = str(self.k)
+            self.k += 1
+            self.expect.append([len(self.scripts) - 1, 'gt' + u, 'one', [['glob', k % 4]]])
+            self.add(*hist_glob(k, u), to=to)
+
+    def define(self, name, ix, to=None):
+        self.add(func(name, json.loads(json.dumps(self.pal[ix][1])), ['a']), to=to)
+
+    def call(self, name, ix, a, to=None, script=None):
+        """record `r<k> = name(a)`; ix: the body the name is bound to when the statement runs"""
+        v = 'r%d' % self.k
+        self.k += 1
+        self.expect.append([len(self.scripts) - 1 if script is None else script, v, 'one', [[ix, a]]])
+        self.add({'k': 'expr', 'name': v, 'e': call(name, num(a))}, to=to)
+
+
+def hist_families(pal, a, b, c, j):
+    """the histories of one ordered pair (a, b) of bodies (c: a third one); j rotates the global constructs"""
+    # one script re-defines a function it already called (and goes back to the first body)
+    h = _Hist(pal, 'redefine')
+    h.glob(j)
+    h.define('f', a)
+    h.call('f', a, 0)
+    h.call('f', a, 2)
+    h.glob(j + 1)
+    h.define('f', b)
+    for arg in (0, 1, 2):
+        h.call('f', b, arg)
+    h.define('f', a)
+    h.call('f', a, 1)
+    yield h
+    # two scripts defining the same names, run in sequence by one host
+    h = _Hist(pal, 'two-scripts')
+    h.glob(j + 1)
+    h.define('f', a)
+    h.define('g', c)
+    h.call('f', a, 0)
+    h.call('g', c, 2)
+    h.call('f', a, 2)
+    h.script()
+    h.add(*[{'k': 'expr', 'name': 'gp%d' % i, 'e': num(i)} for i in range(1 + j % 3)])    # then the same construct again: same label names, other indexes
+    h.glob(j + 1)
+    h.glob(j + 2)
+    h.define('g', a)
+    h.define('f', b)
+    h.call('f', b, 0)
+    h.call('g', a, 1)
+    h.call('f', b, 2)
+    h.call('g', a, 2)
+    yield h
+    # the second script first uses what the first one left behind in the globals (only where the globals object is kept)
+    h = _Hist(pal, 'two-scripts-carry', ['needs-globals'])
+    h.define('f', a)
+    h.call('f', a, 1)
+    h.script()
+    h.glob(j)
+    h.call('f', a, 2)
+    h.define('f', b)
+    h.call('f', b, 2)
+    h.call('f', b, 0)
+    yield h
+    # re-definition inside includes: each include file defines (and calls) f; the main script calls it in between; a file included twice
+    h = _Hist(pal, 'include-redefine')
+    fa, fb = h.file('a.bare'), h.file('lib/b.bare')
+    h.glob(j + 1, to=fa)
+    h.define('f', a, to=fa)
+    h.call('f', a, 1, to=fa)
+    h.glob(j + 2, to=fb)
+    h.define('f', b, to=fb)
+    h.call('f', b, 1, to=fb)
+    h.add({'k': 'include', 'includes': [{'url': 'a.bare'}]})
+    h.call('f', a, 0)
+    h.add({'k': 'include', 'includes': [{'url': 'lib/b.bare'}]})
+    h.call('f', b, 0)
+    h.call('f', b, 2)
+    h.add({'k': 'include', 'includes': [{'url': 'a.bare'}]})
+    h.call('f', a, 2)
+    yield h
+    # an include overrides a function of the main script that was already called; the main script then overrides it back
+    h = _Hist(pal, 'include-override')
+    fb = h.file('b.bare')
+    h.add(*[{'k': 'expr', 'name': 'gp%d' % i, 'e': num(i)} for i in range(1 + j % 3)], to=fb)   # the file's global scope: the main script's labels, shifted
+    h.glob(j, to=fb)
+    h.define('f', b, to=fb)
+    h.glob(j)
+    h.define('f', a)
+    h.call('f', a, 2)
+    h.add({'k': 'include', 'includes': [{'url': 'b.bare'}]})
+    h.call('f', b, 2)
+    h.call('f', b, 0)
+    h.define('f', a)
+    h.call('f', a, 0)
+    yield h
+    # the old function value is kept alive in a variable: BOTH bodies are callable, interleaved (no invalidation point can help)
+    h = _Hist(pal, 'alias')
+    h.define('f', a)
+    h.add({'k': 'expr', 'name': 'h', 'e': var('f')})
+    h.call('f', a, 0)
+    h.glob(j + 1)
+    h.define('f', b)
+    for arg in (0, 2, 1):
+        h.call('h', a, arg)
+        h.call('f', b, arg)
+    yield h
+    # called through another function (itself with a loop) before and after the re-definition
+    h = _Hist(pal, 'via')
+    h.add(func('g', [{'k': 'expr', 'name': 's', 'e': num(0)},
+                     {'k': 'for', 'value': 'v', 'index': None, 'vals': call('arrayNew', num(0), num(1), num(2)),
+                      'b': [{'k': 'expr', 'name': 's', 'e': wf_binary('+', var('s'), call('f', var('v')))}]},
+                     {'k': 'ret', 'e': var('s')}]))
+    h.define('f', a)
+    h.add({'k': 'expr', 'name': 'v0', 'e': call('g')})
+    h.expect.append([0, 'v0', 'sum', [[a, 0], [a, 1], [a, 2]]])
+    h.define('f', b)
+    h.add({'k': 'expr', 'name': 'v1', 'e': call('g')})
+    h.expect.append([0, 'v1', 'sum', [[b, 0], [b, 1], [b, 2]]])
+    h.call('f', b, 1)
+    yield h
+    # the definition is chosen at run time: a loop re-defines f on every iteration, alternating between the two bodies
+    h = _Hist(pal, 'toggle')
+    h.add({'k': 'expr', 'name': 'rs', 'e': call('arrayNew')}, {'k': 'expr', 'name': 'k', 'e': num(0)},
+          {'k': 'while', 'c': wf_binary('<', var('k'), num(5)),
+           'b': [_if(wf_binary('==', wf_binary('%', var('k'), num(2)), num(0)),
+                     [func('f', json.loads(json.dumps(pal[a][1])), ['a'])],
+                     {'k': 'else', 'b': [func('f', json.loads(json.dumps(pal[b][1])), ['a'])]}),
+                 {'k': 'expr', 'name': None, 'e': call('arrayPush', var('rs'), call('f', wf_binary('%', var('k'), num(3))))},
+                 inc('k')]})
+    h.expect.append([0, 'rs', 'list', [[a, 0], [b, 1], [a, 2], [b, 0], [a, 1]]])
+    yield h
+
+
+def hist_render(h, policy, ref):
+    """the JSON form of a history under a policy: texts, files, and the expected value of every recorded variable"""
+    expect = []
+    for script, v, kind, items in h.expect:
+        vals = [ref[(ix, arg)] for ix, arg in items]
+        expect.append([script, v, vals[0] if kind == 'one' else (sum(vals) if kind == 'sum' else vals)])
+    return {'family': h.family, 'policy': policy, 'scripts': ['\n'.join(progen.render(s)) for s in h.scripts],
+            'files': {url: '\n'.join(progen.render(s)) for url, s in h.files.items()}, 'expect': expect}
+
+
+def hist_reference(pal):
+    """-> (usable palette, {(body index, argument): value of `f(argument)` in a script of its own run with FRESH options}, names left out).
+    A body that does not run to completion on its own (while + continue: the known finding F7 never ends) is left out of the palette."""
+    mods = fw.impl()
+    keep, ref, dropped = [], {}, []
+    for name, body in pal:
+        text = '\n'.join(progen.render([func('f', body, ['a'])] + [{'k': 'expr', 'name': 'r%d' % arg, 'e': call('f', num(arg))} for arg in range(3)]))
+        options = {'globals': {}, 'maxStatements': HIST_MAX_STATEMENTS}
+        try:
+            mods['runtime'].execute_script(mods['parser'].parse_script(text), options)
+        except Exception:  # pylint: disable=broad-except
+            dropped.append(name)
+            continue
+        for arg in range(3):
+            ref[(len(keep), arg)] = options['globals'].get('r%d' % arg)
+        keep.append((name, body))
+    for k in (1, 2, 3):
+        options = {'globals': {}, 'maxStatements': HIST_MAX_STATEMENTS}
+        mods['runtime'].execute_script(mods['parser'].parse_script('\n'.join(progen.render(hist_glob(k)))), options)
+        ref[('glob', k)] = options['globals'].get('gt')
+    return keep, ref, dropped
+
+
+def hist_run(hist):
+    """Execute a history on the implementation -> [(oracle, expected, actual)] (empty: the property holds on it)"""
+    mods = fw.impl()
+    runtime, parser = mods['runtime'], mods['parser']
+    files = hist['files']
+    policy = hist['policy']
+    models = [parser.parse_script(text) for text in hist['scripts']]
+    if policy == 'twice':
+        models = models + models
+    globals_ = {}
+    options = {'globals': globals_, 'maxStatements': HIST_MAX_STATEMENTS, 'fetchFn': lambda req: files.get(req['url'])}
+    seen = []
+    out = []
+    for ix, model in enumerate(models):
+        if ix:
+            if policy == 'same-options-new-globals':
+                globals_ = options['globals'] = {}
+            elif policy == 'copied-options':
+                options = dict(options)                     # a shallow copy: whatever the runtime keeps INSIDE the options travels along
+            elif policy == 'new-options-same-globals':
+                options = {'globals': globals_, 'maxStatements': HIST_MAX_STATEMENTS, 'fetchFn': lambda req: files.get(req['url'])}
+        try:
+            runtime.execute_script(model, options)
+        except runtime.BareScriptRuntimeError as exc:
+            msg = str(exc)
+            oracle = HIST_ORACLES[0] if msg.startswith('Unknown jump label') else HIST_ORACLES[1]
+            out.append((oracle, f'script {ix + 1} of the history runs to completion as it does with fresh options', msg))
+            break
+        except Exception as exc:  # pylint: disable=broad-except
+            out.append((HIST_ORACLES[1], f'script {ix + 1} of the history runs to completion as it does with fresh options',
+                        f'{type(exc).__name__}: {exc}'[:200]))
+            break
+        seen.append(globals_)
+    bad = []
+    for script, v, want in hist['expect']:
+        for run in ([script, script + len(hist['scripts'])] if policy == 'twice' else [script]):
+            if run < len(seen) and not (v in seen[run] and seen[run][v] == want):
+                bad.append([run + 1, v, want, seen[run].get(v, '<unset>')])
+    if bad and not out:
+        out.append((HIST_ORACLES[1], 'every recorded call returns what the body bound to the name at that moment returns with fresh options '
+                                     '(the jump lands on the label of its own scope): [script, variable, expected, actual]', bad[:6]))
+    return out
+
+
+def stream_histories(ctx):
+    rng = ctx.rng('exec-histories')
+    pal = hist_palette(rng, ctx.scale(6, 24))
+    partners = ctx.scale(3, 12)
+    st = ctx.stream('exec-histories',
+                    f'EXECUTION histories of parsed structured programs over one options object / one globals object (implementation side only: '
+                    f'the options dict, the globals dict and function values kept in variables are host state the Lean model does not have; the '
+                    f'lowered models themselves are the well-formed ones of the other streams).  Pure function bodies whose generated '
+                    f'labels differ in name and / or statement index (no jump at all; every single construct of the extended space with break / '
+                    f'continue; two sibling constructs in both orders; the same constructs behind 1 / 3 leading statements; random chains of depth '
+                    f'2-3; a body that does not end on its own with fresh options - while + continue, known finding F7 - is left out); for '
+                    f'{partners} partner bodies B of every body A (in rotation) the families: redefine (f = A, called, global constructs, f = B, '
+                    f'called, f = A again), two-scripts (both define f and g with swapped / other bodies; the second script repeats the global '
+                    f'constructs of the first behind 1-3 leading statements) and two-scripts-carry (the second script calls the f the first left '
+                    f'behind, then re-defines it) under the policies {", ".join(HIST_POLICIES)}, include-redefine (two include files define and '
+                    f'call f, the main script calls it in between, one file included twice), include-override (the file re-defines a function '
+                    f'of the main script and repeats its global constructs shifted), alias (h = f kept alive: both bodies called interleaved), '
+                    f'via (called through another function with a loop before and after), toggle (a loop re-defines f on every iteration, '
+                    f'alternating), and every fourth single script run twice on the same options.  The global constructs in between (while / '
+                    f'if-else + for / for-with-index + continue + while) keep a trace variable each.  Oracles: no "Unknown jump label" runtime '
+                    f'error ever; every recorded call returns what the body bound to the name at that moment returns in a script of its own '
+                    f'run with fresh options, and every global construct leaves the trace it leaves when run alone (a jump lands on the '
+                    f'label of its OWN scope); non-trivial = both bodies contain a label')
+    pal, ref, dropped = hist_reference(pal)
+    has_label = ['endwhile' in t or 'endfor' in t or 'endif' in t for t in ('\n'.join(progen.render(body)) for _, body in pal)]
+    n = len(pal)
+    j = 0
+    for a in range(n):
+        bs = sorted({(a + 1 + 7 * i + a * i) % n for i in range(partners)} - {a})
+        for b in bs:
+            c = (a + b + 3) % n
+            j += 1
+            for h in hist_families(pal, a, b, c, j):
+                multi = len(h.scripts) > 1
+                if multi:
+                    policies = [p for p in HIST_POLICIES if not ('needs-globals' in h.tags and p == 'same-options-new-globals')]
+                    if ctx.quick:
+                        policies = [policies[(j + i) % len(policies)] for i in range(2)]
+                else:
+                    policies = ['single'] + (['twice'] if j % 4 == 0 else [])
+                for policy in policies:
+                    hist = hist_render(h, policy, ref)
+                    failures = hist_run(hist)
+                    text = '\n# --- next script, same host ---\n'.join(hist['scripts']) + \
+                           ''.join(f'\n# --- include file {url} ---\n{body}' for url, body in sorted(hist['files'].items()))
+                    for oracle, expected, actual in failures:
+                        ctx.witness(oracle, {'text': text, 'generated_only': False, 'history': hist}, expected, actual)
+                    st.case(hist, nontrivial=has_label[a] and has_label[b],
+                            tags=['family:' + h.family, 'policy:' + policy, 'A:' + pal[a][0].split('>')[0].split(',')[0].split('.')[0].split('+')[0],
+                                  'outcome:' + (failures[0][0] if failures else 'ok')])
+    ctx.notes.append(f'exec-histories: {len(pal)} bodies, {j} ordered pairs; left out (do not end on their own, F7): {", ".join(dropped) or "none"}')
+
+
 def streams(ctx):
     # --- corpus first
     corpus = load_corpus()
@@ -1483,6 +1841,9 @@ def streams(ctx):
         (raw if allow_raw else plain).append((prog, tags))
     jobs = [('progs', 'random', ch, False) for ch in chunks(plain, 500)] + [('progs', 'random', ch, True) for ch in chunks(raw, 500)]
     run_jobs(ctx, st, jobs)
+
+    # --- stream exec-histories: one function name, several bodies, one options / globals object (implementation side only)
+    stream_histories(ctx)
     # the smallest failing input first (it becomes the replay file)
     ctx.witnesses.sort(key=lambda w: len(w['input']['text']))
 
@@ -1582,6 +1943,8 @@ class _Collect:
 
 def replay(witness):
     inp = witness['input']
+    if witness['oracle'] in HIST_ORACLES and 'history' in inp:
+        return witness['oracle'] in [f[0] for f in hist_run(inp['history'])]
     model, _ = parse_impl(inp['text'], inp.get('as_lines', False))
     if model is None:
         return False
